@@ -31,7 +31,7 @@ LEVEL_TEXT = ("Exploration over all ~390 classes: thousands of generated instanc
 LEVEL_NOTE = "Trusts the instance generator's notion of validity (derived from class declarations) and modelwalk equality."
 DESIGN_REF = "DESIGN.md §3 C01"
 MIN_COUNTERS = {"quick": {"roundtrips": 8000, "classes_covered": 380, "monitor_init_postcondition_calls": 20000, "monitor_to_etree_postcondition_calls": 20000},
-                "thorough": {"roundtrips": 60000, "classes_covered": 380, "monitor_init_postcondition_calls": 200000, "monitor_to_etree_postcondition_calls": 200000}}
+                "thorough": {"roundtrips": 400000, "classes_covered": 380, "monitor_init_postcondition_calls": 200000, "monitor_to_etree_postcondition_calls": 200000}}
 
 FORMS = [("xml", 203, False, True), ("xml-pretty", 220, True, True), ("sgml-closed", 102, False, True), ("sgml-closed-pretty", 160, True, True),
          ("sgml-unclosed", 103, False, False), ("sgml-unclosed-pretty", 151, True, False)]
@@ -156,7 +156,7 @@ def run_shard(ctx):
     online.install_to_etree_monitor()
     classes = list(ref_decl.all_classes().items())
     thorough = ctx.tier == "thorough"
-    nrandom = 8 if not thorough else 58
+    nrandom = 8 if not thorough else 220
     for ci, (name, cls) in enumerate(classes):
         if ci % ctx.nshards != ctx.shard:
             continue
